@@ -381,16 +381,25 @@ pub fn select_all(view: &Value) -> Map<String, Value> {
 
 /// Narrow a selection: every kept node is deselected with probability drop_pm/1000.
 pub fn narrow_selection(rng: &mut Rng, s: &Map<String, Value>, drop_pm: u64) -> Map<String, Value> {
-    fn nar(rng: &mut Rng, v: &Value, drop_pm: u64) -> Value {
+    fn nar(rng: &mut Rng, v: &Value, drop_pm: u64, in_array: bool) -> Value {
         match v {
             Value::Bool(false) | Value::Null => v.clone(),
-            _ if rng.chance(drop_pm, 1000) => json!(false),
-            Value::Object(o) => Value::Object(o.iter().map(|(k, c)| (k.clone(), nar(rng, c, drop_pm))).collect()),
-            Value::Array(a) => Value::Array(a.iter().map(|c| nar(rng, c, drop_pm)).collect()),
+            // inside an array a string or number selector selects nothing either (the holder only
+            // acts on true / nested selectors there): callers that mirror claim values write those
+            Value::String(_) | Value::Number(_) if in_array => v.clone(),
+            _ if rng.chance(drop_pm, 1000) => {
+                if in_array && rng.chance(1, 3) {
+                    rng.pick(&[json!("FR"), json!(7), json!(""), json!(0.5)]).clone()
+                } else {
+                    json!(false)
+                }
+            }
+            Value::Object(o) => Value::Object(o.iter().map(|(k, c)| (k.clone(), nar(rng, c, drop_pm, false))).collect()),
+            Value::Array(a) => Value::Array(a.iter().map(|c| nar(rng, c, drop_pm, true)).collect()),
             _ => v.clone(),
         }
     }
-    s.iter().map(|(k, c)| (k.clone(), nar(rng, c, drop_pm))).collect()
+    s.iter().map(|(k, c)| (k.clone(), nar(rng, c, drop_pm, false))).collect()
 }
 
 pub fn gen_session_string(rng: &mut Rng) -> String {
